@@ -458,6 +458,19 @@ func init() {
 		sig := ex.info().TypeOf(c.Fun).(*types.Signature)
 		return []Value{scalarV(sig.Results().At(0).Type(), st.newRef())}
 	})
+	reg("(*crypto/tls.ConnectionState).ExportKeyingMaterial", "returns an error, or a fresh slice of exactly the requested length with arbitrary contents (RFC 5705 exporter; the key material itself and its equality on both sides are not modelled)", func(ex *Exec, st *State, c *ast.CallExpr, r *Value, a []Value) []Value {
+		n := a[2].scalar()
+		err := freshVar("err", sortRef)
+		st.assume(mkCmp("le", mathC(0), err))
+		ok := mkEq(err, mathC(0))
+		st.assume(mkImplies(ok, mkCmp("le", mkInt(sortInt, 0), n)))
+		bt := types.Typ[types.Byte]
+		ref := st.newRef()
+		ex.havocRange(st, bt, ref)
+		z := mkInt(sortInt, 0)
+		out := Value{T: types.NewSlice(bt), L: map[string]*Term{".ref": mkIte(ok, ref, mathC(0)), ".off": z, ".len": mkIte(ok, n, z), ".cap": mkIte(ok, n, z)}}
+		return []Value{out, scalarV(ex.vc.errT, err)}
+	})
 	reg("(*crypto/tls.Conn).LocalAddr", "the project's TLS listeners are TCP listeners: returns a non-nil *net.TCPAddr", func(ex *Exec, st *State, c *ast.CallExpr, r *Value, a []Value) []Value {
 		sig := ex.info().TypeOf(c.Fun).(*types.Signature)
 		var at types.Type
@@ -889,7 +902,8 @@ func init() {
 		z := mkInt(sortInt, 0)
 		pt := Value{T: a[0].T, L: map[string]*Term{".ref": mkIte(ok, ref, mathC(0)), ".off": z, ".len": mkIte(ok, n, z), ".cap": mkIte(ok, n, z)}}
 		// ghost trace of the last Open on this path: (aead, nonce, ciphertext, associated data)
-		st.ghost["aead.open.aead"] = scalarV(nil, r.scalar())
+		st.ghost["aead.open.ok"] = boolV(ok)
+		st.ghost["aead.open.aead"] = scalarV(aeadHandleT, r.scalar())
 		st.ghost["aead.open.ad"] = a[3]
 		st.ghost["aead.open.nonce"] = nonce
 		st.ghost["aead.open.ct"] = ct
@@ -904,7 +918,8 @@ func init() {
 		ref := st.newRef()
 		ex.havocRange(st, bt, ref)
 		n := idxAdd(pt.L[".len"], mkInt(sortInt, 16))
-		st.ghost["aead.seal.aead"] = scalarV(nil, r.scalar())
+		st.ghost["aead.seal.ok"] = boolV(tTrue)
+		st.ghost["aead.seal.aead"] = scalarV(aeadHandleT, r.scalar())
 		st.ghost["aead.seal.ad"] = a[3]
 		st.ghost["aead.seal.pt"] = pt
 		return []Value{{T: a[0].T, L: map[string]*Term{".ref": ref, ".off": mkInt(sortInt, 0), ".len": n, ".cap": n}}}
@@ -926,10 +941,12 @@ func bytesEqualTerm(st *State, x, y Value) *Term {
 	ax := st.regionArr(bt, lf, x.L[".ref"])
 	ay := st.regionArr(bt, lf, y.L[".ref"])
 	res := mkApp("bytes.Equal", sortBool, ax, x.L[".off"], x.L[".len"], ay, y.L[".off"], y.L[".len"])
-	j := freshVar("j", sortInt)
-	body := mkImplies(mkAnd(mkCmp("le", mkInt(sortInt, 0), j), mkCmp("lt", j, x.L[".len"])),
-		mkEq(mkSelect(ax, idxAdd(x.L[".off"], j)), mkSelect(ay, idxAdd(y.L[".off"], j))))
-	st.assume(mkEq(res, mkAnd(mkEq(x.L[".len"], y.L[".len"]), mkQuant("forall", []*Term{j}, body))))
+	// over absolute indices of x's region, so that the pattern is free of arithmetic (robust instantiation)
+	j := freshVar("x", sortInt)
+	rel := idxSub(j, x.L[".off"])
+	body := mkImplies(mkAnd(mkCmp("le", mkInt(sortInt, 0), rel), mkCmp("lt", rel, x.L[".len"])),
+		mkEq(mkSelect(ax, j), mkSelect(ay, idxAdd(y.L[".off"], rel))))
+	st.assume(mkEq(res, mkAnd(mkEq(x.L[".len"], y.L[".len"]), mkQuant("forall", []*Term{j}, body, []*Term{mkSelect(ax, j)}))))
 	return res
 }
 
